@@ -150,6 +150,16 @@ Proof.
     apply IH in H. tauto.
 Qed.
 
+Lemma NoDup_snoc {A} (l : list A) x : NoDup l -> ~ In x l -> NoDup (l ++ [x]).
+Proof.
+  induction l as [|a l IH]; simpl; intros Hnd Hni.
+  - constructor; [simpl; tauto|constructor].
+  - inversion Hnd; subst. constructor.
+    + intro Hin. apply in_app_or in Hin. destruct Hin as [Hin|[Hin|[]]]; [auto|].
+      subst. apply Hni. left. reflexivity.
+    + apply IH; auto.
+Qed.
+
 (* ---------------- the inode table ---------------- *)
 Lemma get_put_same f i n : get (put f i n) i = Some n.
 Proof. unfold get, put. simpl. apply alookup_aset_same. Qed.
